@@ -44,3 +44,18 @@ Definition run_c18 (zero : list (str * slot)) (sets : list (str * newval)) (id :
            (ops : list hop) (fields : list str) : obs :=
   let st := hinit zero sets id in
   OL (obs_hstate st fields :: run_hops st ops fields).
+
+(** type-level edits after Copy / New (soft resources) *)
+From JV Require Import Model.SoftRes Model.C14 Model.TypeHeap.
+
+Definition obs_tstate (st : tstate) : obs :=
+  OL [obs_type (tcell (ts_heap st) (ts_src st)); obs_type (tcell (ts_heap st) (ts_other st))].
+
+Fixpoint run_tops (st : tstate) (ops : list top) : list obs :=
+  match ops with
+  | [] => []
+  | o :: rest => let st' := tstep st o in obs_tstate st' :: run_tops st' rest
+  end.
+
+Definition run_c18_types (t : type) (ops : list top) : obs :=
+  let st := tinit t in OL (obs_tstate st :: run_tops st ops).
